@@ -109,7 +109,7 @@ def random_ops(rng, n, bad=True):
             ks = rng.sample(range(1, dd.NK + 1), rng.randint(1, 2))
             if rng.random() < 0.3:
                 ks.append(ks[0])          # the same key listed twice
-            o.update(ks=ks, d=dd.DEFAULT)
+            o.update(ks=ks, d=dd.DEFAULT, how=rng.choice(['list', 'list', 'iter', 'iter', 'tuple', 'view']))
         elif op == 'updatebad':
             k2 = rng.choice([x for x in range(1, dd.NK + 1) if x != k])
             o.update(k=k, v=10 * k + rng.randint(1, 3), k2=k2)
@@ -142,6 +142,7 @@ PROBES = [
      dict(op='updatebad', loc=1, k=2, v=21, k2=3), dict(op='items', loc=1), dict(op='len', loc=1),
      dict(op='update', loc=1, k=2, v=22, k2=3, v2=31), dict(op='items', loc=1), dict(op='keys', loc=1),
      dict(op='popkeys', loc=1, ks=[1, 2, 1], d=77), dict(op='items', loc=1), dict(op='popkeysd', loc=1, ks=[4, 4], d=77),
+     dict(op='popkeys', loc=2, ks=[1, 4], d=77, how='iter'), dict(op='items', loc=2), dict(op='popkeysd', loc=2, ks=[2, 3], d=77, how='iter'),
      dict(op='update0', loc=1), dict(op='updatekwonly', loc=1, k=1, v=12, k2=4, v2=41), dict(op='updateitems', loc=2, k=2, v=21, k2=3, v2=33),
      dict(op='items', loc=1), dict(op='items', loc=2)],
     # what a failed bulk update leaves behind must not be undone (or completed) by a LATER failing or succeeding operation
